@@ -16,10 +16,15 @@
                     reflect.SetInt/SetUint truncate: numbers too wide wrap around
      MapAsStruct    core/conf describes a map[string]Struct field by the field table of its
                     element: a map key spelled like a field of the element is lower-cased
-                    and the keys below it are left as written                        *)
+                    and the keys below it are left as written
+     RoundFirst     the number of a float32 field is range-checked after it has been rounded
+                    to float32 (convert first, validate the converted value): a decimal range
+                    end that float32 does not hold exactly is crossed by the number equal to it
+     IndexFirst     rest/internal/encoding.ParseHeaders takes v[0] of every header whose list
+                    of values is not longer than one: a key with an empty list panics       *)
 EXTENDS FieldRulesGen
 
-CONSTANTS DropOnRebuild, CanonBang, WideParse, MapAsStruct
+CONSTANTS DropOnRebuild, CanonBang, WideParse, MapAsStruct, RoundFirst, IndexFirst
 
 \* ---- core/conf: toLowerCaseKeyMap.  Keys are lower-cased wherever the field table knows
 \* them; the keys of a map field are data and kept.  LowerS: the spellings the vectors use.
@@ -33,12 +38,36 @@ KeysReach(v) == v.ksp = "lower" \/ (v.src \in ConfSources /\ ~KeyTakenForField(v
 StoredMk(v) == IF KeyTakenForField(v) THEN LowerS(v.mk) ELSE v.mk
 
 \* ---- what the unmarshaller sees in its input map
-PresentV(src, x) == x.t # "absent" /\ ~(src \in FormSources /\ x.t = "str" /\ x.s = "")
+\* httpx.GetFormValues drops the empty texts of a key and a key that has no text left;
+\* encoding.ParseHeaders hands on a key with its list of values unless that has exactly one
+PresentV(src, x) == /\ x.t # "absent"
+                    /\ ~(src \in FormSources /\ x.t = "str" /\ x.s = "")
+                    /\ ~(src \in FormSources /\ x.t = "novals")
 PresentName(v, nm, reach) ==
   \/ reach /\ \E i \in DOMAIN v.f : v.f[i].nm = nm /\ PresentV(v.src, v.in[i])
-  \/ nm \in SeqSet(v.xk)
-\* internal/encoding turns a YAML null into the empty string
-Seen(src, x) == IF src \in {"yaml", "confyaml"} /\ x.t = "null" THEN VStr("") ELSE x
+  \/ \E j \in DOMAIN v.xk : v.xk[j] = nm /\ PresentV(v.src, v.xv[j])
+\* internal/encoding turns a YAML null into the empty string; the form unmarshaller
+\* (WithFromArray) gives a scalar field the first value of its key
+Seen(src, x) == IF src \in {"yaml", "confyaml"} /\ x.t = "null" THEN VStr("")
+                ELSE IF src \in FormSources /\ x.t = "num2" THEN VNum(x.n)
+                ELSE IF src \in FormSources /\ x.t = "str2" THEN VStr(x.s)
+                ELSE x
+\* a scalar field that meets a list of values (header with no or several values): "the value
+\* in map is not string, but slice"
+SliceForScalar(src, x) == x.t \in {"novals", "num2", "str2"}
+
+\* ---- float32: in which direction rounding to float32 moves n / 20 (facts of binary
+\* arithmetic for the probe values; multiples of 0.25 are exact)
+F32Dir(f, n) ==
+  IF f.k # "float32" \/ f.u # 20 \/ n % 5 = 0 THEN 0
+  ELSE CASE n \in {1, 2, 3, 4, 6, 8, 11, 12, 16, 17, 21, 22} -> 1     \* 0.05 0.1 0.15 0.2 0.3 0.4 0.55 0.6 0.8 0.85 1.05 1.1
+         [] n \in {7, 9, 13, 14, 18, 19} -> 0 - 1                      \* 0.35 0.45 0.65 0.7 0.9 0.95
+         [] OTHER -> 0
+\* InRange on the rounded number: compare 2n + dir with the doubled ends
+InRangeRounded(f, n) ==
+  LET m == 2 * n + F32Dir(f, n) IN
+  /\ f.hlo => IF f.li THEN m >= 2 * f.lo ELSE m > 2 * f.lo
+  /\ f.hhi => IF f.ri THEN m <= 2 * f.hi ELSE m < 2 * f.hi
 
 \* ---- fieldoptions.go: toOptionsWithContext
 Resolve(v, i, reach) ==
@@ -77,7 +106,7 @@ FromText(f, x) ==
                              ELSE Bad
 
 OptTextOK(f, x) == ~f.ho \/ ValInOptions(f, x)
-RangeOK(f, rng, r) == ~rng \/ (r.t = "num" /\ InRange(f, r.n))
+RangeOK(f, rng, r) == ~rng \/ (r.t = "num" /\ IF RoundFirst THEN InRangeRounded(f, r.n) ELSE InRange(f, r.n))
 
 \* u.opts.fromString or the `string` tag option: processNamedFieldWithValueFromString
 ViaString(f, rng, x) ==
@@ -114,6 +143,8 @@ ViaMap(f, rng, x) ==
 ListField(v, f, x, r) ==
   IF ~PresentV(v.src, x) THEN (IF f.hd THEN Good(Default(f)) ELSE IF r.optional THEN Good(Zero(f)) ELSE Bad)
   ELSE IF x.t = "null" THEN (IF r.optional THEN Good(Zero(f)) ELSE Bad)
+  ELSE IF x.t = "novals" THEN Good(Zero(f))                     \* header: an empty list of values fills an empty list
+  ELSE IF v.src = "header" /\ x.t = "list" /\ x.n = 1 THEN Bad    \* one value arrives as a text, not as a list
   ELSE IF x.t = "list" THEN Good(x) ELSE Bad
 
 \* reach: the keys of the entry reach the unmarshaller in the spelling it looks for
@@ -126,13 +157,18 @@ Field(v, i, reach) ==
      ELSE IF ~PresentV(v.src, x) THEN
             (IF f.hd THEN Good(Default(f)) ELSE IF r.optional THEN Good(Zero(f)) ELSE Bad)
      ELSE IF x.t = "null" THEN (IF r.optional THEN Good(Zero(f)) ELSE Bad)
+     ELSE IF SliceForScalar(v.src, x) THEN Bad
      ELSE IF v.src \in StrSources THEN ViaString(f, r.range, x)
      ELSE IF v.src \in MapSources THEN ViaMap(f, r.range, x)
      ELSE ViaDoc(f, r.range, x)
 
 \* the map wrapper holds two entries with the same content: v.mk (reported) and "k2"
+HasNoVals(v) == \/ \E i \in DOMAIN v.in : v.in[i].t = "novals"
+                \/ \E j \in DOMAIN v.xv : v.xv[j].t = "novals"
 Impl(v) ==
   LET reach == KeysReach(v) IN
+  IF IndexFirst /\ v.src = "header" /\ HasNoVals(v) THEN [acc |-> FALSE, pan |-> TRUE, out |-> <<>>, mk |-> <<>>]
+  ELSE
   IF /\ \A i \in DOMAIN v.f : Field(v, i, reach).ok
      /\ v.wrap = "map" => \A i \in DOMAIN v.f : Field(v, i, TRUE).ok
   THEN [acc |-> TRUE, pan |-> FALSE,
